@@ -163,5 +163,85 @@ def main():
         (root / f"AutogradLocal{g}b.lean").write_text(b)
 
 
+
+
+# ----------------------------------------------------------------------------- Props section (restatements with GTangent)
+
+def props_group(g):
+    n, m = GD[g], AD[g]
+    ta, tb = lst("a", m), lst("b", m)
+    A, B = binders("a", m), binders("b", m)
+    unit = f"(hu : UnitQ .{g} (X 0))"
+    sc = f" (hs : ScaleNZ .{g} (X 0))" if SIDX[g] is not None else ""
+    scu = " hs" if SIDX[g] is not None else ""
+    als = "[" + ", ".join(f"al{i} t" for i in range(m)) + "]"
+    al0 = "[" + ", ".join(f"al{i} 0" for i in range(m)) + "]"
+    halh = " ".join(f"(hal{i} : HasDerivAt al{i} b{i} 0)" for i in range(m))
+    haln = " ".join(f"hal{i}" for i in range(m))
+    N = MATN[g]
+    return f"""
+/-! ### `{g}` -/
+
+/-- `{g}_Mul.backward`: `X_grad = c[:-1]`, `Y_grad = c[:-1] @ Adj(X)` are the transposes of the true tangent map -/
+theorem {g}_Mul_tangent (X Y : ℝ → DVec ℝ) ({A} {B} : ℝ)
+    (hX : GTangent .{g} X {ta}) (hY : GTangent .{g} Y {tb}) {unit} :
+    GTangent .{g} (fun t => mulF .{g} (X t) (Y t)) (DVec.add {ta} ((AdjMat .{g} (X 0)).mulVec {tb})) :=
+  mul_tangent_{g} X Y {A} {B} hX hY hu
+
+/-- `{g}_Inv.backward`: `-(c[:-1] @ Adj(Y))`, `Y = X⁻¹` -/
+theorem {g}_Inv_tangent (X : ℝ → DVec ℝ) ({A} : ℝ) (hX : GTangent .{g} X {ta}) {unit}{sc} :
+    GTangent .{g} (fun t => invF .{g} (X t)) (DVec.neg ((AdjMat .{g} (invF .{g} (X 0))).mulVec {ta})) :=
+  inv_tangent_{g} X {A} hX hu{scu}
+
+/-- `{g}_Act.backward`: `X_grad = c @ Act_Jacobian(out)`, `p_grad = c @ Matrix(X)[:3,:3]` -/
+theorem {g}_Act_tangent (X p : ℝ → DVec ℝ) ({A} b0 b1 b2 : ℝ)
+    (hX : GTangent .{g} X {ta}) (hp : LCurve 3 p [b0, b1, b2]) {unit} :
+    LCurve 3 (fun t => actF .{g} (X t) (p t))
+      (DVec.add ((ActJac .{g} (v3 (actF .{g} (X 0) (p 0)))).mulVec {ta}) (DMat.mulVec (Mat33 .{g} (X 0)).toRows [b0, b1, b2])) :=
+  act_tangent_{g} X p {A} b0 b1 b2 hX hp hu
+
+/-- `{g}_Act4.backward` (homogeneous points, any `w`) -/
+theorem {g}_Act4_tangent (X p : ℝ → DVec ℝ) ({A} b0 b1 b2 b3 : ℝ)
+    (hX : GTangent .{g} X {ta}) (hp : LCurve 4 p [b0, b1, b2, b3]) {unit} :
+    LCurve 4 (fun t => act4F .{g} (X t) (p t))
+      (DVec.add ((Act4Jac .{g} (v3 (act4F .{g} (X 0) (p 0))) (nth (act4F .{g} (X 0) (p 0)) 3)).mulVec {ta})
+        ((Mat44 .{g} (X 0)).mulVec [b0, b1, b2, b3])) :=
+  act4_tangent_{g} X p {A} b0 b1 b2 b3 hX hp hu
+
+/-- `{g}_AdjXa.backward`: `X_grad = -c @ adj(out)`, `a_grad = c @ Adj(X)` -/
+theorem {g}_Adj_tangent (X : ℝ → DVec ℝ) ({binders('al', m)} : ℝ → ℝ) ({A} {B} : ℝ)
+    (hX : GTangent .{g} X {ta}) {halh} {unit} :
+    LCurve {m} (fun t => adjF .{g} (X t) {als})
+      (DVec.add (DVec.neg ((adMat .{g} (adjF .{g} (X 0) {al0})).mulVec {ta})) ((AdjMat .{g} (X 0)).mulVec {tb})) :=
+  adj_tangent_{g} X {binders('al', m)} {A} {B} hX {haln} hu
+
+/-- `{g}_AdjTXa.backward`: both returned gradients are transposes of `Adj(X⁻¹)·adj(a)·τ + Adj(X⁻¹)·da` -/
+theorem {g}_AdjT_tangent (X : ℝ → DVec ℝ) ({binders('al', m)} : ℝ → ℝ) ({A} {B} : ℝ)
+    (hX : GTangent .{g} X {ta}) {halh} {unit}{sc} :
+    LCurve {m} (fun t => adjTF .{g} (X t) {als})
+      (DVec.add ((AdjMat .{g} (invF .{g} (X 0))).mulVec ((adMat .{g} {al0}).mulVec {ta}))
+        ((AdjMat .{g} (invF .{g} (X 0))).mulVec {tb})) :=
+  adjT_tangent_{g} X {binders('al', m)} {A} {B} hX {haln} hu{scu}
+
+/-- `matrix()` of a `{g}` element (`{N}×{N}`, through `Act` on the identity columns) -/
+theorem {g}_matrix_tangent (X : ℝ → DVec ℝ) ({A} : ℝ) (hX : GTangent .{g} X {ta}) {unit} :
+    LCurve {N*N} (fun t => matrixF .{g} (X t)) (matrixT .{g} (X 0) {ta}) :=
+  matrix_tangent_{g} X {A} hX hu
+"""
+
+
+def props_section():
+    return "".join(props_group(g) for g in GD)
+
+
+def write_props():
+    f = Path(__file__).resolve().parent.parent / "lean" / "Proofs" / "Props" / "C04.lean"
+    s = f.read_text()
+    a = s.index("-- BEGIN GENERATED LOCAL") + len("-- BEGIN GENERATED LOCAL")
+    b = s.index("-- END GENERATED LOCAL")
+    f.write_text(s[:a] + "\n" + props_section() + "\n" + s[b:])
+
+
 if __name__ == "__main__":
     main()
+    write_props()
